@@ -966,6 +966,25 @@ def run_c14(ctx):
         if cfg == ctx.cfgs[-1]:
             typed_part(ctx, 'run_c14_typed')
     ctx.violations += judge_unbounded(ctx)
+    # error construction itself must not panic: every data error scans its own message for a trailing " at line L column C" (parse_line_col), and the
+    # message echoes input text; (i) the message-level model check, (ii) input strings carrying such tails (ASCII and non-ASCII numerics, cut inside a
+    # multi-byte character's neighbourhood) read into a type that rejects them
+    for cfg in ctx.cfgs:
+        ctx.violations += judge_errmsg(ctx, cfg, 800)
+        tails = [b' at line 3', b' at line \xd9\xa3', b' at line 3 column \xd9\xa4', b' at line 1\xd9\xa3 column 2', b' at line \xc2\xb2 column 1', b' at line \xef\xbc\x93',
+                 b' at line 7 column 3', b' at line 18446744073709551616 column 1', b' at line 1 column \xc2\xbd', b' at line  column ', b' at line 0 column 0']
+        docs = [b'"' + pre + t + b'"' for t in tails for pre in (b'', b'Bird', b'\xc3\xa9')] + [b'{"a":1,"b' + t + b'":2}' for t in tails]
+        L = ctx.letters(cfg)
+        lines = []
+        for d in docs:
+            for ty in ('n2', 'B', 'u', 'an0', 'S(61:n0)', 'E(%s:u)' % hx(b'Cat')):
+                for src in ('s', 'b', 'r1'):
+                    lines.append('pt %s %s %s %s' % (L, src, ty, hx(d)))
+        outs = ctx.impl(cfg, lines, 'sjh_typed')
+        for ln, o in zip(lines, outs):
+            if o == 'PANIC' or o.startswith('CRASH') or o == '':
+                ctx.violations.append({'what': 'panic-while-building-an-error', 'cfg': cfg, 'input': ln.split(' ')[-1], 'expected': 'an error value', 'actual': o, 'shrinkable': False, 'case': ln})
+        ctx.count('error-message-tails', len(lines))
 
 def judge_unbounded(ctx):
     """unbounded_depth build (side configuration in the quick tier): with disable_recursion_limit() deeper documents parse — through the
